@@ -151,8 +151,11 @@ def _st_svd(draw):
     return c
 
 
+# constants: 0 or sign * m * 10^e with m in [1, 10), e in [-30, 12]. Subnormal / near-underflow constants are excluded:
+# a relative tolerance is meaningless there (window weights of 1e-17 times 1e-310 underflow), see the false-alarm log.
 _consts = st.one_of(st.sampled_from([1.0, -1.0, 0.0, 1e-9, -3.5e8, 42.0]),
-                    st.floats(-1e6, 1e6, allow_nan=False, allow_infinity=False))
+                    st.tuples(st.sampled_from([-1.0, 1.0]), st.floats(1.0, 10.0, exclude_max=True), st.integers(-30, 12))
+                    .map(lambda t: t[0] * t[1] * 10.0 ** t[2]))
 
 
 @st.composite
@@ -586,7 +589,9 @@ def _run_svd(case, ctx):
 # smoothers
 
 def _const_err(out, c):
-    return _maxabs(np.asarray(out, dtype=np.float64) - c) / abs(c) if c != 0 else _maxabs(out)
+    """Deviation from the constant relative to |c| (absolute for c == 0). The denominator is floored at 1e-280: nearer to
+    the subnormal range float64 cannot hold c times a window weight to 1e-12 relative (not generated, replay only)."""
+    return _maxabs(np.asarray(out, dtype=np.float64) - c) / max(abs(c), 1e-280) if c != 0 else _maxabs(out)
 
 
 def _run_lp(case, ctx):
@@ -1015,7 +1020,10 @@ def _run_stack(case, ctx):
         tol = 1e-12 if dt is np.float64 else 2e-5
         same_nan = np.array_equal(np.isnan(stk), np.isnan(exp))
         fin = ~np.isnan(exp)
-        den = max(_maxabs(exp[fin]), 1.0) if fin.any() else 1.0
+        # naive summation of n <= 58 values errs by at most n * eps * max|v| (mean, sum / n): tolerances are relative to
+        # the largest sample (times n for sums), which leaves > 100x (float64) and > 5x (float32) on that bound
+        dfin = data[np.isfinite(data)]
+        den = max(_maxabs(dfin) if dfin.size else 0.0, 1.0) * (ntr if oracle_agg == "sum" else 1)
         err = (_maxabs(stk[fin].astype(np.float64) - exp[fin]) / den) if (same_nan and fin.any()) else (0.0 if same_nan else np.inf)
         ctx.stat("stack_relerr_" + case["dtype"], err if np.isfinite(err) else 1.0)
         good = same_nan and err <= tol
